@@ -71,7 +71,7 @@ func checkC06(c *km.Ctx) {
 	r.Rule("R-C06-1", "every protected sink reachable from a service route is dominated by the credential fact its route kind requires (auth-gated: checkAuth err==nil; password: limiter ok and password accepted; federated: state match and exchange ok; bearer-code: verified code; aws: verified caller identity and allowed account; public: no protected sink at all)", 31)
 	r.Rule("R-C06-2", "the admission mask passed to checkAuth by each caller equals the reviewed reference (certificate kinds only where the endpoint takes them)", 11)
 	r.Rule("R-C06-3", "every success return of checkAuth is preceded on every path by the CSRF test: method GET, or no Origin/Referer, or no Host, or Origin/Referer host equal to the request host", 1)
-	r.Rule("R-C06-4", "getUsernameIfKeymasterSigned admits a chain only after the deny-list comparison of the leaf key and after refusing chains anchored at the role-requesting CA certificate", 1)
+	r.Rule("R-C06-4", "getUsernameIfKeymasterSigned admits a chain only after the deny-list comparison of the leaf key and after refusing chains anchored at the role-requesting CA certificate; the fingerprint has the form the deny list is written in (hex SHA-256 of the SSH wire form)", 1)
 	r.Rule("R-C06-6", "the netblocks an IP-restricted certificate is checked against are the ones it was minted with: encoder and decoder of the address extension agree (bit length, byte count, mask, family constant) and the verifier accepts only on Contains(peer)", 3)
 	r.Rule("R-C06-5", "checkAuth sets each credential bit only under the success of the matching verifier (shared with R-C01-3)", 4)
 
